@@ -92,6 +92,46 @@ def derives(t, root):
     return False
 
 
+def linear(t):
+    """term -> {atom: coefficient} (key 1 for the constant part): 64-bit sums and differences, byte-pointer arithmetic
+    (`idx(base, i8, k)` = base + k, `p(base, off)` = base + off) and width-preserving casts are linear; everything else is an
+    atom.  Two terms with equal linear forms denote the same value however the sum was spelled or associated."""
+    out = {}
+
+    def add(term, k):
+        if isinstance(term, tuple):
+            if term[0] == "c":
+                out[1] = out.get(1, 0) + k * term[1]
+                return
+            if term[0] == "op" and term[1] in ("add", "sub") and term[2] == "i64":
+                add(term[3], k)
+                add(term[4], k if term[1] == "add" else -k)
+                return
+            if term[0] == "idx" and term[2] == "i8" and len(term[3]) == 1:
+                add(term[1], k)
+                add(term[3][0], k)
+                return
+            if term[0] == "p":
+                add(term[1], k)
+                out[1] = out.get(1, 0) + k * term[2]
+                return
+            if term[0] == "cast" and term[1] in ("ptrtoint", "inttoptr", "bitcast"):
+                add(term[3], k)
+                return
+        out[term] = out.get(term, 0) + k
+    add(t, 1)
+    return {a: c % (1 << 64) for a, c in out.items() if c % (1 << 64)}
+
+
+def linear_diff(a, b):
+    """linear(a) - linear(b)"""
+    la, lb = linear(a), linear(b)
+    out = dict(la)
+    for k, c in lb.items():
+        out[k] = (out.get(k, 0) - c) % (1 << 64)
+    return {k: c for k, c in out.items() if c}
+
+
 class Event:
     __slots__ = ("kind", "ins", "fn", "args", "res", "nfacts", "callee", "ckind", "extra", "depth")
 
@@ -561,6 +601,7 @@ OPAQUE = {"_cbor_safe_to_add", "_cbor_safe_to_multiply", "_cbor_safe_signaling_a
 
 
 BOUNDED_RECURSIVE = set()
+FORK_CONST_SELECT = True
 
 
 def _is_loader(g):
@@ -617,7 +658,8 @@ def static_callees(prog, eff, fname):
 
 
 class Executor:
-    def __init__(self, prog, eff, inline=(), max_paths=MAX_PATHS, loop_bound=1, arith_events=False, snapshot_calls=(), auto_static=True):
+    def __init__(self, prog, eff, inline=(), max_paths=MAX_PATHS, loop_bound=1, arith_events=False, snapshot_calls=(), auto_static=True,
+                 cut_loops=False, generic_rounds=False):
         self.prog, self.eff = prog, eff
         self.arith_events = arith_events
         self.snapshot_calls = set(snapshot_calls)
@@ -626,6 +668,8 @@ class Executor:
         self.auto_static = auto_static
         self.max_paths = max_paths
         self.loop_bound = loop_bound
+        self.cut_loops = cut_loops
+        self.generic_rounds = generic_rounds
         self.npaths = 0
 
     # ---- term construction ----
@@ -714,6 +758,10 @@ class Executor:
                 for v, pb in ins.incoming:
                     if pb is prev:
                         newvals[ins.id] = self.term(f, v, env, args)
+                        if self.generic_rounds and depth == 0 and is_const(newvals[ins.id]) and not f.dominates_block(b, pb):
+                            # an arbitrary round of the loop, not the first: a loop-carried counter that starts at a
+                            # constant stands for any value it may have reached
+                            newvals[ins.id] = ("phi", f.name, ins.id)
                         break
                 else:
                     raise AnalysisBroken("%s: phi %r has no incoming for predecessor" % (f.name, ins))
@@ -818,6 +866,24 @@ class Executor:
                         ret = ZERO
                     elif st.truth.get(ret) is not None and self.type_of_term(ret) == "i1":
                         ret = ("c", int(st.truth[ret]))
+                    elif self.type_of_term(ret) == "i1":
+                        # the same test spelled the other way round (`a != b` returned where `a == b` was branched on)
+                        n_ = st.norm(ret, True)
+                        if n_[0] == "const":
+                            ret = ("c", int(bool(n_[1])))
+                        elif n_[0] in st.truth:
+                            ret = ("c", int(st.truth[n_[0]] == n_[1]))
+                if depth > 0 and f.ret_type == "i1" and isinstance(ret, tuple) and not is_const(ret) and \
+                        self.eff.summ.get(f.name, {}).get("writes"):
+                    # an inlined routine with side effects that answers with a computed truth value (`return !(a < b);` after
+                    # updating its out-parameter): the caller sees a definite answer on each continuation
+                    for k_, truth_ in enumerate((True, False)):
+                        st2 = st.clone() if k_ == 0 else st
+                        if st2.assume(ret, truth_, ins):
+                            r2 = ("c", int(truth_))
+                            st2.events.append(Event("ret", ins, f, (r2,), r2, len(st2.facts), None, None, None, depth))
+                            yield st2, r2
+                    return
                 st.events.append(Event("ret", ins, f, (ret,), ret, len(st.facts), None, None, None, depth))
                 if depth == 0:
                     self.npaths += 1
@@ -827,6 +893,19 @@ class Executor:
                 return
             if op == "unreachable":
                 return
+            if op == "select" and FORK_CONST_SELECT:
+                # `c ? K1 : K2` with constant arms is a branch written as an expression: both outcomes are explored as paths of
+                # their own (with the fact that decides them), so that everything computed from the value is concrete
+                c_, a_, b_ = (self.term(f, o, env, args) for o in ins.operands)
+                n_ = st.norm(c_, True)
+                if is_const(a_) and is_const(b_) and a_ != b_ and n_[0] != "const" and n_[0] not in st.truth:
+                    for k_, (truth_, val_) in enumerate(((True, a_), (False, b_))):
+                        st2 = st.clone() if k_ == 0 else st
+                        if st2.assume(c_, truth_, ins):
+                            env2 = dict(env) if k_ == 0 else env
+                            env2[ins.id] = val_
+                            yield from self.exec_from(f, b, i + 1, prev, env2, st2, args, depth)
+                    return
             env[ins.id] = self.exec_inst(f, ins, env, st, args, depth)
             i += 1
         raise AnalysisBroken("%s: block %r has no terminator" % (f.name, b))
@@ -836,6 +915,20 @@ class Executor:
         if f.dominates_block(dst, src):  # back edge
             n = st.edges.get(key, 0)
             if n >= self.loop_bound:
+                if self.cut_loops and depth == 0:
+                    # the path ends here, as "continue with these values": what the loop-carried variables become for the next
+                    # round (the loop form of a tail call)
+                    nxt = []
+                    for pi in dst.insts:
+                        if pi.op != "phi":
+                            break
+                        for v, pb in pi.incoming:
+                            if pb is src:
+                                nxt.append((pi.id, self.term(f, v, env, args)))
+                    ret = ("cut", dst.id, tuple(nxt))
+                    st.events.append(Event("cut", ins, f, (ret,), ret, len(st.facts), None, None, None, depth))
+                    self.npaths += 1
+                    yield st, ret
                 return
             st.edges[key] = n + 1
         yield from self.exec_from(f, dst, 0, src, env, st, args, depth)
@@ -899,6 +992,15 @@ class Executor:
                 r = {"eq": a[1] == b[1], "ne": a[1] != b[1], "ult": a[1] < b[1], "ule": a[1] <= b[1],
                      "ugt": a[1] > b[1], "uge": a[1] >= b[1]}[ins.pred]
                 return ("c", int(r))
+            if op == "icmp" and is_const(a) and is_const(b) and ins.pred.startswith("s"):
+                bits_ = type_bits(getattr(ops[0], "type", None)) or 64
+
+                def sg(v):
+                    v &= mask(bits_)
+                    return v - (1 << bits_) if v >> (bits_ - 1) else v
+                x, y = sg(a[1]), sg(b[1])
+                r = {"slt": x < y, "sle": x <= y, "sgt": x > y, "sge": x >= y}[ins.pred]
+                return ("c", int(r))
             if op == "icmp" and ins.pred in ("eq", "ne") and is_const(a) and not is_const(b):
                 a, b = b, a
             return (op, ins.pred, a, b)
@@ -925,6 +1027,14 @@ class Executor:
                 return a
             if op in ("add", "or", "xor") and a == ZERO:
                 return b
+            if op == "sub" and bits == 64 and b is not None and isinstance(a, tuple) and isinstance(b, tuple) and \
+                    (a[0] in ("p", "idx", "cast") or b[0] in ("p", "idx", "cast")):
+                # a pointer difference whose variable parts cancel (`cursor - buffer` after a fixed number of `*cursor++`)
+                d_ = linear_diff(a, b)
+                if not d_:
+                    return ZERO
+                if set(d_) == {1}:
+                    return ("c", d_[1] & mask(64))
             if op in ("add", "mul", "and", "or", "xor") and b is not None and repr(a) > repr(b):
                 a, b = b, a  # commutative: canonical order
             return ("op", op, ins.type, a, b, ins.id)[:5]
